@@ -49,8 +49,18 @@ claim("C10",
       "Every ParentQueue walk in the scheduler is bounded or runs on a queue map filled only from the snapshot, which removes parent cycles (bounded walk + delete, before linking children and cleaning orphans) before publishing; ChildQueues recursion follows links written only by the sanitiser; every unguarded dereference of a queue looked up by id is covered by a reviewed invariant (a new one is reported); pod-set minimums taken from the API are forced to ≥ 1; a task naming an unknown sub-group is dropped rather than filed elsewhere; a rejected sub-group graph leaves the default pod set. General panic freedom and liveness are not decided.",
       NOTE)
 
+claim("C11",
+      "must-pass-through with error-edge pruning on Binder.Bind / Reconcile / Rollback, guard dominance of the bind attempt, deferred-closure analysis (recover path), provenance of the synced node, sibling agreement between forward and release methods of the plugin interfaces (reachability of mutating client calls)",
+      "The pods/binding create is the last fallible step and last API write of Binder.Bind; a failing Bind always reaches Rollback; Rollback runs every step for shared-GPU requests without short-circuit and every plugin's rollback; bind and rollback sync the request's SelectedNode; Bind runs only for live, not-yet-succeeded requests of unbound pods behind a deferred UpdateStatus that turns a recovered panic into a failed attempt; plugins that create/reserve in PreBind/Allocate/Bind release in Rollback/UnAllocate (the DRA plugin's empty UnAllocate is a recorded known finding). Fault and crash interleavings are not decided.",
+      NOTE)
+
+claim("C12",
+      "per-path return facts of getTaskStatus / GetBindRequestForPod / IsFailed, provenance of node, GPU groups and received type from the BindRequest, constant folding of the status predicates, guard dominance in the stale-request cleanup, must-pass-through from every status write to the status patch with 'unchanged' edges pruned, complementarity of the retry and terminal conditions by their branch facts",
+      "A pending unbound pod with a live BindRequest is Binding on the request's SelectedNode with the request's GPU groups and received type (request first); Binding is an active-used, allocated status; a request is hidden from the snapshot exactly when absent or terminally failed and exactly deleted-node and terminally failed requests are deleted; every change the binder makes to Status.Phase or Status.FailedAttempts reaches Status().Patch; a retry is scheduled iff limit set ∧ attempts < limit ∧ failure, and IsFailed ⇔ Failed ∧ (no limit ∨ attempts ≥ limit). Cross-process interleavings are not decided.",
+      NOTE)
+
 NA = {
     "C15": "quantifies over infinite executions of a closed system (lasso freedom); no static shape of the code settles it. Its three guards (strict saturation comparison with multiplier >= 1, strictly-lower priority for preempt, consolidation only when all victims are re-placed) are decided as clauses of C07 and C06.",
 }
-for _p in ["C04","C05","C09","C11","C12","C16","C17","C18","C19","C20"]:
+for _p in ["C04","C05","C09","C16","C17","C18","C19","C20"]:
     NA.setdefault(_p, "check under construction in this session (see DESIGN.md §4 for the planned static obligations); not claimed until the check exists")
